@@ -82,25 +82,25 @@ check("C10", "Hypothesis (backend + correlation template configuration, pipeline
 # Extensions made after the seeded rounds 2 and 3 (appended to the level text; the generators' own
 # description is the RULE text of each vf/props module, copied into the evidence file on every run).
 EXTRA = {
-    "C01": " Also: field-reference quoting per side, keyword items with modifiers, large cases (70-character strings, 40-value lists, 20-leaf conditions).",
+    "C01": " Also: field-reference quoting per side, keyword items with modifiers, large cases (70-character strings, 40-value lists, 20-leaf conditions). Junctions of same-kind operands that render differently by value (existence checks, nulls, booleans).",
     "C02": " Also: tabs / line breaks / CR LF as separators, names with a hyphen after a keyword, large cases (10-40 detections, chains of 10-60 operands, nesting to depth 12).",
     "C03": " Also: placeholder names of 33-300 characters, values of 100+ characters, lists of 23-40 values.",
     "C04": " Also: every payload length 1..130 for every chain and random payloads up to 300 characters.",
-    "C05": " Also: the {regex} slot of all string templates inside a delimited regex literal (both protection routes) and plain runs of 31..1025 characters around every interesting unit.",
+    "C05": " Also: the {regex} slot of all string templates inside a delimited regex literal (both protection routes) and plain runs of 31..1025 characters around every interesting unit. Every short string also as member of an in-expression (value list on an OR-as-in backend).",
     "C06": " Also: key-collision documents (flag-alias spellings, many-to-one mappings, explicit |all items) compared by meaning, percentile bounds 0/100, and a reloaded document must convert whenever the original does.",
-    "C07": " Also: integers beyond float range, infinities, NaN, maps with non-string keys, very long / deep condition strings, collections loaded through load_ruleset.",
-    "C09": " Also: references by id in upper-case / braced / dash-free spelling, extended conditions with and without a rules key; a set whose references all resolve must load.",
-    "C10": " Also: pipelines scoped to a log source, outer correlation rules with group-by and condition field, percentile 0 / 100, fields lists of referenced and correlation rules checked against the documented order.",
-    "C11": " Also: non-canonical UUID spellings in rule lists, action: global template documents, action: repeat documents, two-condition rules.",
-    "C12": " Also: a warm-up rule from another log source through the same backend and pipeline objects, values with 17-33 matches of every replacement pattern.",
-    "C13": " Also: regex field lists with inline flags and back references, correlation rules (also correlation of correlation) as targets of rule conditions.",
+    "C07": " Also: integers beyond float range, infinities, NaN, maps with non-string keys, very long / deep condition strings, collections loaded through load_ruleset. Dates naming days that do not exist (ISO and slash form), non-string detection names under selectors.",
+    "C09": " Also: references by id in upper-case / braced / dash-free spelling, extended conditions with and without a rules key; a set whose references all resolve must load. The documented order of the loaded collection is part of every outcome; skip-level references between correlation rules.",
+    "C10": " Also: pipelines scoped to a log source, outer correlation rules with group-by and condition field, percentile 0 / 100, fields lists of referenced and correlation rules checked against the documented order. Alias maps naming a rule by its other identifier.",
+    "C11": " Also: non-canonical UUID spellings in rule lists, action: global template documents, action: repeat documents, two-condition rules. Detection bodies as map, two-item map, list of maps, value list on rule and filter side.",
+    "C12": " Also: a warm-up rule from another log source through the same backend and pipeline objects, values with 17-33 matches of every replacement pattern. windash items (expansions) under value transformations.",
+    "C13": " Also: regex field lists with inline flags and back references, correlation rules (also correlation of correlation) as targets of rule conditions. Map-then-rest, two-step mapping chains, items replaced by several items (split) and post-processing items conditioned on earlier post-processing items, each against a by-hand model of what was applied to the same rule / item / field.",
     "C14": " Also: path-like pipeline names, user-level placeholder items, pipeline files in prefix-related directories named as directories / files / mixed.",
-    "C15": " Also: backends of the same class with a second pipeline definition (other variable table) and probes needing a variable only that table defines.",
+    "C15": " Also: backends of the same class with a second pipeline definition (other variable table) and probes needing a variable only that table defines. One value text under different modifier chains (salted per case against warmed process caches) and histories that switch output formats.",
     "C16": " Also: template texts that call every public callable reachable from the template context (about 300) with file paths and crafted documents incl. the opt-in keyword, and two-step attempts that build and use a gated item.",
-    "C17": " Also: an 81-character placeholder name and case-sensitive field-bound values.",
+    "C17": " Also: an 81-character placeholder name and case-sensitive field-bound values. Look-alike values (placeholder vs escaped percent signs) side by side in one rule.",
     "C18": " Also: other valid spellings of a network (dotted netmask, no prefix, upper case, exploded, uncompressed, dotted-quad tail) and expand() with other wildcards.",
-    "C19": " Also: nested / relative paths with equal leaf directory names, correlation rules in the collection.",
-    "C20": " Also: conversion with the verification backend (correlation fields / typing / normalisation templates), fields lists, strict field mapping, a filter with an undefined detection; error records are checked for leaked internal identifiers.",
+    "C19": " Also: nested / relative paths with equal leaf directory names, correlation rules in the collection. Exhaustive glob sweep: every selector pattern over {a,b,_,*} up to length 4 (thorough 6) against every name over {a,b,_} up to length 4 (5).",
+    "C20": " Also: conversion with the verification backend (correlation fields / typing / normalisation templates), fields lists, strict field mapping, a filter with an undefined detection; error records are checked for leaked internal identifiers. Group-by lists overlapping with one-to-many mapping targets.",
 }
 for _pid, _extra in EXTRA.items():
     _t = CHECKS[_pid]
